@@ -691,10 +691,10 @@ def _grammar_module():
     return importlib.import_module('edb.edgeql.parser.grammar.start')
 
 
-def _build_spec_json() -> str:
+def _build_spec_json(spec=None) -> str:
     from edb.common import parsing as edb_parsing
-    mod = _grammar_module()
-    spec = edb_parsing.load_parser_spec(mod)
+    if spec is None:
+        spec = edb_parsing.load_parser_spec(_grammar_module())
     _SPEC_INFO['stats'] = spec.stats
     _SPEC_INFO['cache_key'] = spec.cache_key
     _SPEC_INFO['pure_lr'] = spec.pureLR
@@ -705,13 +705,50 @@ def _build_spec_json() -> str:
     return edb_parsing.spec_to_json(spec)
 
 
-def _install_spec(spec_json: str) -> None:
+def _install_spec(spec_json: str, cache_path=None) -> None:
     global _SPEC
     from edb.common import parsing as edb_parsing
     spec = _Spec(json.loads(spec_json))
+    if cache_path is not None:
+        try:
+            import marshal
+            payload = marshal.dumps((
+                _SPEC_MAGIC, spec.actions, spec.goto, spec.start,
+                spec.inlines, spec.production_names))
+            tmp = f'{cache_path}.tmp{os.getpid()}'
+            with open(tmp, 'wb') as f:
+                f.write(payload)
+            os.replace(tmp, cache_path)
+        except OSError:
+            pass
     productions = edb_parsing.load_spec_productions(
         [list(p) for p in spec.production_names], _grammar_module())
     _SPEC = (spec, productions)
+
+
+def _load_cached_spec(cache_path) -> bool:
+    """Second-level cache: the final driver tables (marshal)."""
+    global _SPEC
+    try:
+        import marshal
+        with open(cache_path, 'rb') as f:
+            obj = marshal.loads(f.read())
+        magic, actions, goto, start, inlines, production_names = obj
+        if magic != _SPEC_MAGIC:
+            return False
+    except Exception:
+        return False
+    from edb.common import parsing as edb_parsing
+    spec = _Spec.__new__(_Spec)
+    spec.actions = actions
+    spec.goto = goto
+    spec.start = start
+    spec.inlines = inlines
+    spec.production_names = production_names
+    productions = edb_parsing.load_spec_productions(
+        [list(p) for p in production_names], _grammar_module())
+    _SPEC = (spec, productions)
+    return True
 
 
 def preload_spec(spec_filepath: str) -> None:
@@ -720,7 +757,11 @@ def preload_spec(spec_filepath: str) -> None:
     Upstream reads the bincode file produced at build time
     (edb/edgeql/grammar.bc).  That file does not exist in an unbuilt tree, so
     if `spec_filepath` is not a file written by *our* `save_spec`, the spec is
-    generated from the grammar modules (tables cached under /verif/cache).
+    generated from the grammar modules: real `load_parser_spec` (stand-in
+    `parsing.Spec`, LR tables cached as /verif/cache/lrtables-<key>.json) ->
+    real `spec_to_json` -> `_Spec`.  The resulting driver tables are cached
+    as /verif/cache/edgeql-spec-<key2>.marshal where key2 covers the table
+    key, edb/common/parsing.py and this file.
     """
     if _SPEC is not None:
         return
@@ -732,9 +773,26 @@ def preload_spec(spec_filepath: str) -> None:
                 spec_json = f.read().decode('utf-8')
     except (OSError, TypeError):
         pass
-    if spec_json is None:
-        spec_json = _build_spec_json()
-    _install_spec(spec_json)
+    if spec_json is not None:
+        _install_spec(spec_json)
+        return
+
+    from edb.common import parsing as edb_parsing
+    spec = edb_parsing.load_parser_spec(_grammar_module())
+    h = hashlib.sha256()
+    h.update(spec.cache_key.encode())
+    h.update(pathlib.Path(edb_parsing.__file__).read_bytes())
+    h.update(pathlib.Path(__file__).read_bytes())
+    cache_dir = pathlib.Path(
+        os.environ.get('VRT_CACHE_DIR', str(_RT.parent.parent / 'cache')))
+    cache_path = cache_dir / f'edgeql-spec-{h.hexdigest()}.marshal'
+    _SPEC_INFO['cache_key'] = spec.cache_key
+    _SPEC_INFO['spec_cache'] = str(cache_path)
+    if os.environ.get('VRT_NO_SPEC_CACHE') or not _load_cached_spec(
+            cache_path):
+        spec_json = _build_spec_json(spec)
+        cache_dir.mkdir(parents=True, exist_ok=True)
+        _install_spec(spec_json, cache_path)
 
 
 def save_spec(spec_json: str, dst: str) -> None:
